@@ -51,6 +51,7 @@ func checkC02(ctx *Ctx, r *Report) {
 	c02JavaPackageSegments(ctx, r)
 	c02JavaClassNamesFormatted(ctx, r)
 	c02JavaListItemDefaultsTyped(ctx, r)
+	c02GoConstantReferencesTyped(ctx, r)
 	c10SeventhHunt(ctx, r)                // the branch of a union that holds a numeric default: `Any: (func (input unknown) …)` does not type-check
 	c10EighthHunt(ctx, r)                 // defaults of bytes fields and of lists of date-times: strings where []byte / time.Time are declared
 	c10GoNestedOverrideRecurses(ctx, r)   // a struct default holding another struct: `Inner: map[string]interface {}{…}` does not type-check
@@ -3689,4 +3690,29 @@ func c02JavaListItemDefaultsTyped(ctx *Ctx, r *Report) {
 	r.Count("Java default formatters of lists", 1)
 	r.Check(itemByItem, "kinds/java-list-item-defaults-typed", "java.genDefaultForType writes the default of a list", fd.Pos(), "item by item, each as a default of the item type",
 		"the whole default list is handed to the formatter of the item type: for `pts: [...#Pt] | *[{x: 1}, {x: 2}]` Root.java holds `this.pts = List.of([]interface {}{map[string]interface {}{\"x\":1}, …});` — a Go literal, javac: illegal start of expression — and the run reports success")
+}
+
+// c02GoConstantReferencesTyped: Go declares a named constant as a constant (`const C = "const"`), which is no type. The
+// function that writes a reference (`formatRef`: items of lists, values of maps, arguments) asks whether the reference
+// resolves to a concrete scalar and writes the scalar's type then — `L []C` does not compile.
+func c02GoConstantReferencesTyped(ctx *Ctx, r *Report) {
+	fn := ctx.LookupMethod("internal/jennies/golang", "typeFormatter", "formatRef")
+	fd, _ := ctx.DeclOf(fn)
+	if fd == nil {
+		r.Undecided("anchor lost: golang.typeFormatter.formatRef")
+		return
+	}
+	asksConstant := false
+	for _, st := range fd.Body.List {
+		is, ok := st.(*ast.IfStmt)
+		if !ok {
+			continue
+		}
+		if strings.Contains(exprString(is.Cond), "IsConcreteScalar()") && endsInExit(is.Body) {
+			asksConstant = true
+		}
+	}
+	r.Count("Go formatters of references", 1)
+	r.Check(asksConstant, "kinds/go-constant-references-typed", "golang.typeFormatter.formatRef writes a reference to a named constant", fd.Pos(), "as the type of the constant (a Go constant is no type)",
+		"formatRef writes the name of the referred object whatever it is: `#C: \"const\"; Root: {l: [...#C], m: [string]: #C}` gives `L []C`, `M map[string]C` and builder arguments of type []C — C is not a type, the package does not compile and the run reports success (a plain field `f: #C` is handled by formatField)")
 }
